@@ -201,6 +201,10 @@ func (a *verifSplitter) Do(e *Event) ActionResult {
 var (
 	VerifRealAction func() (ActionPlugin, AnyConfig)
 	VerifRealDoc    func(i int, stream string) string
+	// VerifRealOut, when set, sees every event the output is given (content oracles of the plugin's harness)
+	VerifRealOut func(e *Event)
+	// VerifRealTimeouts counts the stream time-out events the real action was given in this run
+	VerifRealTimeouts int
 )
 
 // observes what the real action decides (a collapsed or discarded event is not committed)
@@ -213,6 +217,7 @@ func (a *verifWrap) Start(c AnyConfig, p *ActionPluginParams) { a.inner.Start(c,
 func (a *verifWrap) Stop()                                    { a.inner.Stop() }
 func (a *verifWrap) Do(e *Event) ActionResult {
 	if e.IsTimeoutKind() {
+		VerifRealTimeouts++
 		return a.inner.Do(e)
 	}
 	off := e.Offset
@@ -263,7 +268,12 @@ func VerifH_C01_pipeline() {
 	out.b = NewBatcher(BatcherOptions{Controller: p, Workers: workers, BatchSizeCount: batchCount, FlushTimeout: verifFlush,
 		OutFn: func(_ *WorkerData, batch *Batch) {
 			var offs []int64
-			batch.ForEach(func(e *Event) { offs = append(offs, e.Offset) })
+			batch.ForEach(func(e *Event) {
+				offs = append(offs, e.Offset)
+				if VerifRealOut != nil && vf.Param("real", 0) == 1 {
+					VerifRealOut(e)
+				}
+			})
 			vf.Yield() // the send takes time
 			for _, o := range offs {
 				w.acked[o] = true
